@@ -35,13 +35,16 @@ const char *mc_rule = "history BFS with canonical-state dedupe: all histories (t
 
 // ---------------------------------------------------------------- ids, answers
 static uint64_t djb2x(const char *s) { uint64_t h = 5381; while (*s) h = (h * 33) ^ (uint64_t) (int64_t) *s++; return h; }   // reference for mpt_hash_djb2
-static const uint64_t ID_GO = djb2x("go"), ID_STOP = djb2x("stop"), ID_XX = djb2x("xx");
+// "stop" command: a UTF-8 name (bytes >= 0x80); handlers for command names are registered under mpt_hash(name) (zero-terminated form,
+// default length -1, as a caller of the public API does), mpt_dispatch_hash computes the id from the explicit text length
+static const char TXT_STOP[] = "st\xc3\xb6p", SHOW_STOP[] = "st\\xc3\\xb6p";
+static const uint64_t ID_GO = mpt::mpt_hash("go", -1), ID_STOP = mpt::mpt_hash(TXT_STOP, -1), ID_XX = djb2x("xx");
 // command names that are never registered (several lengths); the letter "unknown command" runs all of them
 static const char *unknown_txt[] = { "x", "xx", "abc", "restart" };
 static std::string idname(uint64_t id)
 {
 	if (id == ID_GO) return "#go";
-	if (id == ID_STOP) return "#stop";
+	if (id == ID_STOP) return std::string("#") + SHOW_STOP;
 	if (id == UINTPTR_MAX) return "UINTPTR_MAX";
 	for (const char *t : unknown_txt) if (id == djb2x(t)) return std::string("#") + t;
 	return std::to_string((unsigned long long) id);
@@ -94,7 +97,7 @@ static void build_letters(int alpha, bool tied, std::vector<Letter> &L)
 	std::vector<uint64_t> T; T.push_back(ID_GO); if (th) T.push_back(ID_STOP); T.push_back(ID_XX);
 	// every hash letter runs ALL fragmentations of header + text + tail into <= 3 segments (inner loop, see apply_disp)
 	for (uint64_t id : T) for (int sh = 0; sh < 2; ++sh) for (int a = 0; a < NANS; ++a) {
-		std::string txt = id == ID_GO ? "go" : (id == ID_STOP ? "stop" : (a == A0 ? "<x|xx|abc|restart>" : "xx"));
+		std::string txt = id == ID_GO ? "go" : (id == ID_STOP ? SHOW_STOP : (a == A0 ? "<x|xx|abc|restart>" : "xx"));
 		L.push_back(Letter{HASH, id, a, sh, "dispatch_hash(" + (sh ? "sep=' ' \"" + txt + " now\"" : "\"" + txt + "\\0\"") + ", all fragmentations)" + ansname[a], "dispatch_hash"});
 	}
 	L.push_back(Letter{HASH_BAD, 0, 0, 0, "dispatch_hash(no message)", "dispatch_hash"});
@@ -125,7 +128,7 @@ static const std::vector<Letter> &letters(int alpha)
 }
 static uint64_t make_init(int alpha, unsigned prefill, const std::vector<int> &prefix)
 {
-	uint64_t v = (uint64_t) (alpha & 3) | (uint64_t) prefill << 2 | (alpha == 4 ? 128 : 0);
+	uint64_t v = (uint64_t) (alpha & 3) | (uint64_t) (prefill & 31) << 2 | (alpha == 4 || prefill >= 32 ? 128 : 0);
 	for (size_t i = 0; i < prefix.size(); ++i) v |= (uint64_t) (prefix[i] + 1) << (8 + 10 * i);
 	return v;
 }
@@ -188,7 +191,7 @@ struct Sys {
 	uint64_t pre_ids[16]; int pre_n; uint64_t pre_def; int pre_fb; const char *pre_tcls;
 	const char *frag_txt; size_t frag_c1, frag_c2, frag_len; int frag_clen;   // running fragmentation of a hash letter
 
-	Sys(Run &run, uint64_t init) : r(run), alpha((init & 128) ? 4 : (int) (init & 3)), sub((init & 3) >= 2), t0(run.transitions), dead(false), d(0), def(0), fb(-2), answer(A0),
+	Sys(Run &run, uint64_t init) : r(run), alpha(((init & 128) && (init & 3) < 2) ? 4 : (int) (init & 3)), sub((init & 3) >= 2), t0(run.transitions), dead(false), d(0), def(0), fb(-2), answer(A0),
 	                               had_free(false), had_growth(false), counted(false), cur(0), pre_n(0), pre_def(0), pre_fb(0), pre_tcls(""), frag_txt(0), frag_c1(0), frag_c2(0), frag_len(0), frag_clen(0)
 	{
 		static bool once = false;
@@ -199,9 +202,12 @@ struct Sys {
 		else {
 			fb = -1;
 			// reply table pre-filled with outstanding requests
+			// flag 128 on a reply table: 1-byte ids, all but <field> of the 127 ids of that width are outstanding
 			unsigned prefill = (unsigned) (init >> 2) & 31;
+			bool full = init & 128;
+			if (full) prefill = 127 - prefill;
 			for (unsigned i = 0; i < prefill; ++i) {
-				mpt::command *c = mpt::mpt_command_reserve(warr(), 2);
+				mpt::command *c = mpt::mpt_command_reserve(warr(), full ? 1 : 2);
 				if (!c) { r.incomplete("prefill of the reply table refused"); break; }
 				int t = newtok(c->id, 2);
 				c->cmd = (raw_handler) H; c->arg = targ(t); reg[c->id] = t;
@@ -613,11 +619,13 @@ bool Sys::apply_disp(const Letter &l)
 		// unknown names: all lengths with the plain answer, only "xx" with the other answers
 		size_t ntxt = l.id == ID_XX && l.ans == A0 ? sizeof unknown_txt / sizeof *unknown_txt : 1;
 		for (size_t ti = 0; ti < ntxt; ++ti) {
-			const char *txt = l.id == ID_GO ? "go" : (l.id == ID_STOP ? "stop" : unknown_txt[ntxt > 1 ? ti : 1]);
+			const char *txt = l.id == ID_GO ? "go" : (l.id == ID_STOP ? TXT_STOP : unknown_txt[ntxt > 1 ? ti : 1]);
 			size_t n = strlen(txt);
-			uint64_t id = djb2x(txt);
+			// registered names: the id the handler was registered under (mpt_hash(name), zero-terminated form)
+			uint64_t id = l.id == ID_XX ? djb2x(txt) : l.id;
 			setcls(target_class(id));
-			if (id != mpt::mpt_hash(txt, (int) n)) return fail("hash-function", "mpt_hash differs from the documented djb2-xor variant");
+			if (l.id == ID_STOP && final_op()) r.count("path:hash of a non-ASCII command name");
+			if (djb2x(txt) != mpt::mpt_hash(txt, (int) n)) return fail("hash-function", "mpt_hash differs from the documented djb2-xor variant");
 			int target = -3, want_ret; uint64_t want_id, id_after = id;
 			if (reg.count(id)) {
 				target = reg[id];
@@ -777,9 +785,11 @@ bool Sys::apply_wait(const Letter &l)
 		mpt::command *c = l.shape ? LIB(reinterpret_cast<mpt::command::array *>(&wait)->reserve(l.id)) : LIB(mpt::mpt_command_reserve(warr(), l.id));
 		if (!settle()) return false;
 		if (!c) {
+			{ uint64_t live = 0; for (auto &kv : reg) if (kv.first >= 1 && kv.first <= max) ++live; if (live == max) cnt("path:reserve refused, every id of the width outstanding"); }
 			cnt(typed ? "reserve refused on table created by command_set (not flagged)" : "reserve refused (not flagged)");
 			return lookup_ok();   // compaction must keep all bindings
 		}
+		if (reg.size() >= max) cnt("path:reserve with at least as many outstanding requests as ids of the width");
 		if (reg.count(c->id)) return fail("duplicate-id", "reserved id " + idname(c->id) + " belongs to an outstanding request");
 		if (c->id > max) return fail("id-out-of-width", "reserved id " + idname(c->id) + fmt(" does not fit %d byte(s)", (int) l.id));
 		int t = newtok(c->id, 2);
@@ -868,6 +878,8 @@ void mc_jobs(Tier t, std::vector<std::string> &jobs)
 	jobs.push_back("closure");
 	jobs.push_back("wait:0");
 	jobs.push_back("wait:7");
+	jobs.push_back("wait:full");     // 1-byte ids, all 127 outstanding
+	jobs.push_back("wait:full-1");   // 126 outstanding
 	if (t == Thorough) jobs.push_back("wait:8");
 	jobs.push_back("large:root");
 	if (large_depth(t) > SPLIT) {
@@ -880,6 +892,7 @@ static void requirements(Run &r, const std::string &job)
 {
 	r.require("nontrivial");
 	if (job == "closure" || job == "large:root") {
+		if (job == "large:root") r.require("path:hash of a non-ASCII command name");
 		const char *req[] = { "path:registered", "path:dispatch_set refuses used id", "path:end-of-life on removal", "path:end-of-life on replacement", "path:end-of-life on fini",
 			"path:end-of-life on teardown", "path:end-of-life of replaced fallback", "path:id delivered to registered handler", "path:message delivered to registered handler",
 			"path:default event delivered", "path:delivered to fallback handler", "path:delivered to built-in fallback", "path:no handler and no fallback",
@@ -896,7 +909,8 @@ static void requirements(Run &r, const std::string &job)
 		const char *req[] = { "path:id reserved", "path:reserve compacts freed slots", "path:reserve searches low free id", "path:reserve with id UINTPTR_MAX in the table", "path:end-of-life on release",
 			"path:end-of-life on clear", "path:end-of-life on teardown" };
 		for (const char *k : req) r.require(k);
-		if (job != "wait:0") r.require("path:table growth"); else r.require("path:reserve creates table");
+		if (job.compare(0, 9, "wait:full") == 0) { if (job == "wait:full") r.require("path:reserve refused, every id of the width outstanding"); r.require("path:reserve with at least as many outstanding requests as ids of the width"); }
+		else if (job != "wait:0") r.require("path:table growth"); else r.require("path:reserve creates table");
 	}
 }
 void mc_explore(Run &r, const std::string &job)
@@ -905,7 +919,8 @@ void mc_explore(Run &r, const std::string &job)
 	std::vector<uint64_t> inits;
 	std::vector<int> prefix;
 	int depth;
-	if (job.compare(0, 5, "wait:") == 0) { inits.push_back(make_init(r.tier == Quick ? 2 : 3, (unsigned) strtoul(job.c_str() + 5, 0, 10), prefix)); depth = wait_depth(r.tier, (unsigned) strtoul(job.c_str() + 5, 0, 10)); }
+	if (job.compare(0, 9, "wait:full") == 0) { inits.push_back(make_init(r.tier == Quick ? 2 : 3, 32 + (unsigned) (job.size() > 9 ? strtoul(job.c_str() + 10, 0, 10) : 0), prefix)); depth = r.tier == Quick ? 4 : 5; }
+	else if (job.compare(0, 5, "wait:") == 0) { inits.push_back(make_init(r.tier == Quick ? 2 : 3, (unsigned) strtoul(job.c_str() + 5, 0, 10), prefix)); depth = wait_depth(r.tier, (unsigned) strtoul(job.c_str() + 5, 0, 10)); }
 	else if (job == "closure") { inits.push_back(make_init(r.tier == Quick ? 4 : 0, 0, prefix)); depth = closure_depth(r.tier); }
 	else if (job == "large:root") { inits.push_back(make_init(1, 0, prefix)); depth = std::min(SPLIT, large_depth(r.tier)); }
 	else if (job == "large:unsplit") { inits.push_back(make_init(1, 0, prefix)); depth = large_depth(r.tier); }
